@@ -4,6 +4,7 @@
    needSep.  p = opt.HasAny(OptPretty); the other output options do not act on native values. *)
 From Coq Require Import List NArith ZArith Bool.
 From GoPdf.Base Require Import Bytes Res.
+From GoPdf.Gen Require Gen_C01.
 From GoPdf.C01 Require Import Lex Obj Num Names Strings.
 Import ListNotations.
 Open Scope N_scope.
@@ -83,3 +84,13 @@ Fixpoint fmt_frags (p : bool) (l : list (bytes * obj)) : list (bytes * bytes) :=
 (* pdf.Format(w, opt, objects...) *)
 Definition format (p : bool) (os : list obj) : bytes :=
   if p then fmt_list_pretty true os else fmt_list_plain false os.
+
+(* ---- OutputOptions (types.go: a bit mask, constants translated) ----
+   Of the five exported options only OptPretty reaches the formatting of native values:
+   OptDictTypes / OptTrimStandardFonts / OptTextStringUtf8 are read by Encode methods of
+   higher-level types, OptContentStream only admits the Operator type. *)
+Definition has_opt (mask o : Z) : bool := negb (Z.land mask o =? 0)%Z.
+Definition format_opt (mask : Z) (os : list obj) : bytes :=
+  format (has_opt mask Gen_C01.OptPretty) os.
+Definition inert_options : list Z :=
+  [Gen_C01.OptDictTypes; Gen_C01.OptTrimStandardFonts; Gen_C01.OptTextStringUtf8; Gen_C01.OptContentStream].
